@@ -39,14 +39,24 @@ def regenerate():
     try:
         text, tables = py2v.translate_source(open(SRC).read())
     except py2v.Untranslatable as e:
-        coq.write_if_changed(GEN, py2v.failed_text(str(e)))
+        _reject(coq, py2v, str(e))
         return False, str(e), None
     except SyntaxError as e:
         msg = 'untranslatable construct at batteries.py:%s (syntax error)' % e.lineno
-        coq.write_if_changed(GEN, py2v.failed_text(msg))
+        _reject(coq, py2v, msg)
         return False, msg, None
     coq.write_if_changed(GEN, text)
     return True, 'translated %d classes, %d methods' % (len(tables), sum(len(t['methods']) for t in tables)), tables
+
+
+def _reject(coq, py2v, msg):
+    """Fail closed: a Gen.v that cannot compile, and no stale Gen.vo for anything to load."""
+    coq.write_if_changed(GEN, py2v.failed_text(msg))
+    for ext in ('.vo', '.vos', '.vok', '.glob'):
+        try:
+            os.remove(GEN[:-2] + ext)
+        except OSError:
+            pass
 
 
 def load_impl():
@@ -624,17 +634,39 @@ def cmp_contents(cls, impl_fields, ref_fields):
     return len(impl_fields) == len(ref_fields) and all(same(x, y) for x, y in zip(impl_fields, ref_fields))
 
 
-def run_case(B, table, init_args, ops):
+def snapshot_copy(B, table, init_args, impl):
+    """A fresh instance that loads the pickled _serialize() data of impl (what a replica restored from a
+    snapshot is)."""
+    import pickle
+    rep = Impl(B, table, init_args)
+    rep.obj._deserialize(pickle.loads(pickle.dumps(impl.obj._serialize(), 2)))
+    return rep
+
+
+def run_case(B, table, init_args, ops, snap_at=None):
     """Returns dict: impl_steps [(name,args,orc,obs,fields)], ref_steps (same shape), init fields, problems
-    (monitor records: battery differs from the builtin)."""
+    (monitor records: battery differs from the builtin, or a replica restored from a snapshot taken before
+    op number snap_at differs from the original), d14 (a ReplSet.pop that differed between the two replicas
+    although their contents were equal: known finding D14, not a problem)."""
     cls = table['class']
     impl = Impl(B, table, init_args)
     ref = REFS[cls](*init_args)
+    rep = None
     out = {'cls': cls, 'init_args': init_args, 'impl_init': impl.fields(), 'ref_init': ref.fields(),
-           'impl_steps': [], 'ref_steps': [], 'problems': []}
+           'impl_steps': [], 'ref_steps': [], 'problems': [], 'd14': None, 'snap_at': snap_at, 'replica_steps': 0}
     if not cmp_contents(cls, out['impl_init'], out['ref_init']):
         out['problems'].append({'step': -1, 'what': 'contents after construction %r, builtin %r' % (out['impl_init'], out['ref_init'])})
+    if sorted(impl.obj._serialize().keys()) != sorted(table['fields']):
+        out['problems'].append({'step': -1, 'what': '_serialize() keys %r, instance attributes %r'
+                                % (sorted(impl.obj._serialize().keys()), sorted(table['fields']))})
     for i, (name, args) in enumerate(ops):
+        if snap_at is not None and i == snap_at:
+            rep = snapshot_copy(B, table, init_args, impl)
+            if not all(same(x, y) for x, y in zip(rep.fields(), impl.fields())):
+                out['problems'].append({'step': i, 'what': 'replica restored from the snapshot holds %r, original %r'
+                                        % (rep.fields(), impl.fields())})
+                break
+        before = impl.fields()
         o = impl.step(name, args)
         orc = o[1] if (cls == 'ReplSet' and name == 'pop' and o[0] == 'ok' and type(o[1]) is int) else None
         ro = ref_outcome(ref, name, args, orc)
@@ -650,6 +682,22 @@ def run_case(B, table, init_args, ops):
             out['problems'].append({'step': i, 'op': [name, [enc(a) for a in args]],
                                     'what': 'after %s.%s%r contents %r, builtin %r' % (cls, name, tuple(args), fi, fr)})
             break
+        if rep is not None:
+            o2 = rep.step(name, args)
+            f2 = rep.fields()
+            out['replica_steps'] += 1
+            agree = (o2[0] == o[0] and (o2[1] == o[1] if o[0] == 'err' else same(o2[1], o[1]))
+                     and all(same(x, y) for x, y in zip(f2, fi)))
+            if not agree:
+                if (cls == 'ReplSet' and name == 'pop' and o[0] == 'ok' and o2[0] == 'ok' and isinstance(before[0], set)
+                        and o[1] in before[0] and o2[1] in before[0] and o[1] != o2[1]):
+                    out['d14'] = {'step': i, 'contents': sorted(before[0]), 'original_pops': o[1], 'restored_pops': o2[1]}
+                    rep = None          # the replicas legitimately differ from here on (known finding D14)
+                else:
+                    out['problems'].append({'step': i, 'op': [name, [enc(a) for a in args]],
+                                            'what': 'replica restored from a snapshot before op %d: %s.%s%r -> %r, contents %r; '
+                                                    'original -> %r, contents %r' % (snap_at, cls, name, tuple(args), o2, f2, o, fi)})
+                    break
     return out
 
 
